@@ -7,8 +7,12 @@
 // through five routes) x variable sets (includer defines a subset of {a,b}, through the render context or through
 // set; with passes a subset of {a,c}; the included template sets a subset of {a,b,c,d}, runs a loop,
 // defines a block and a macro with the includer's names) x tokenizer (source below / above the
-// 4096-byte switch). Every program is rendered by the real engine and compared with the reference
-// model of model.go (transcribed from the property statement).
+// 4096-byte switch) x the includer's position in an extends chain (none; the layout of a chain of one
+// or two extending templates that override its blocks, block k - which it renders after the include -
+// with parent() or not at all; the block override of the template next to the layout) x blocks of an
+// included template that extends (its parent defines / it overrides / it overrides with parent() a
+// block named like the includer's block k). Every program is rendered by the real engine and
+// compared with the reference model of model.go (transcribed from the property statement).
 package main
 
 import (
@@ -74,6 +78,13 @@ type cas struct {
 	setMask  int // included template sets bit0..3: a b c d
 	extra    int // 0 none, 1 loop over q, 2 loop over z, 3 block k + macro m, 4 loop over z + block k + macro m
 	pad      bool
+	// the includer as part of an extends chain (depth 0: it is not; all fields below are 0 then)
+	depth  int // number of templates that extend the layout `lay`: 1 (main) or 2 (main extends pg extends lay)
+	holder int // 0: the include stands in the body of the layout; 1: in the override of block kk written by the template that extends the layout (place == pChildBlock)
+	kOver  int // which extending templates override block k with `Pn[{{ parent() }}]`: bit0 the one next to the layout, bit1 the one above it
+	// blocks of an included template that extends, beside `ib`: 0 none; 1 its parent defines block k;
+	// 2 it overrides that block k; 3 it overrides it and calls parent()
+	xblk int
 }
 
 func (c cas) key() string {
@@ -84,7 +95,25 @@ func (c cas) key() string {
 	if c.defSet {
 		d = 1
 	}
-	return fmt.Sprintf("t%d/o%x/w%d.%d/n%d/p%d/i%d.%d/s%x/x%d/k%d", c.target, c.opts, c.withMask, c.wstyle, c.name, c.place, c.incMask, d, c.setMask, c.extra, p)
+	k := fmt.Sprintf("t%d/o%x/w%d.%d/n%d/p%d/i%d.%d/s%x/x%d/k%d", c.target, c.opts, c.withMask, c.wstyle, c.name, c.place, c.incMask, d, c.setMask, c.extra, p)
+	if c.xblk != 0 { // suffixes only for the dimensions added later: the keys of the older cases are unchanged
+		k += fmt.Sprintf("/b%d", c.xblk)
+	}
+	if c.depth != 0 {
+		k += fmt.Sprintf("/c%d.%d.%d", c.depth, c.holder, c.kOver)
+	}
+	return k
+}
+
+func (c cas) chainLabel() string {
+	if c.depth == 0 {
+		return ""
+	}
+	h := "layout"
+	if c.holder == 1 {
+		h = "override"
+	}
+	return fmt.Sprintf("chain%d-%s-k%d", c.depth, h, c.kOver)
 }
 
 func optString(o int) string {
@@ -127,8 +156,9 @@ func one(n node) []node { return []node{n} }
 
 // program: the templates of a case, the render context, and the world the model evaluates.
 type program struct {
-	w   *world
-	ctx map[string]string
+	w      *world
+	ctx    map[string]string
+	padded []string // the templates that get the comment padding in the padded twin (those that hold includes)
 }
 
 func build(c cas) *program {
@@ -182,8 +212,18 @@ func build(c cas) *program {
 	case tPlain:
 		w.tmpls["inc"] = &tmpl{body: body}
 	case tExtends:
-		w.tmpls["inx"] = &tmpl{extends: "ibase", body: one(nBlock{"ib", body})}
-		w.tmpls["ibase"] = &tmpl{body: cat(one(nText{"IB["}), prints(",", abcd...), one(nText{":"}), one(nBlock{"ib", one(nText{"dflt"})}), one(nText{"]"}))}
+		inx := &tmpl{extends: "ibase", body: one(nBlock{"ib", body})}
+		ibase := &tmpl{body: cat(one(nText{"IB["}), prints(",", abcd...), one(nText{":"}), one(nBlock{"ib", one(nText{"dflt"})}), one(nText{"]"}))}
+		if c.xblk >= 1 { // a block with the name of the block the includer renders after the include
+			ibase.body = append(ibase.body, nBlock{"k", one(nText{"BK"})})
+		}
+		switch c.xblk {
+		case 2:
+			inx.body = append(inx.body, nBlock{"k", one(nText{"IK"})})
+		case 3:
+			inx.body = append(inx.body, nBlock{"k", []node{nText{"IK["}, nParent{}, nText{"]"}}})
+		}
+		w.tmpls["inx"], w.tmpls["ibase"] = inx, ibase
 	case tRenderFail:
 		w.tmpls["brt"] = &tmpl{body: []node{nText{"x"}, nBoom{}}}
 	case tNestedMissing:
@@ -205,24 +245,25 @@ func build(c cas) *program {
 	macroM := nMacroDef{"m", nil, one(nText{"MM"})}
 	after := cat(one(nText{"|"}), prints(",", "a", "b", "c", "d", "q"), one(nText{"|"}), one(nMacroCall{"m", nil}), one(nText{"|"}), one(nBlock{"k", one(nText{"MK"})}))
 	local := cat(one(nText{"("}), prints(",", "a", "b", "c", "d", "q"), one(nText{")"}))
-	var main *tmpl
+	// macros: definitions at the head of the template that holds the include; placed: the include in its placement
+	macros := one(node(macroM))
+	var placed []node
 	switch c.place {
 	case pTop:
-		main = &tmpl{body: cat(one(macroM), defs, one(nText{"A"}), one(inc), after)}
+		placed = cat(one(nText{"A"}), one(inc))
 	case pIf:
-		main = &tmpl{body: cat(one(macroM), defs, one(nIf{one(inc)}), after)}
+		placed = one(node(nIf{one(inc)}))
 	case pFor:
 		inner := cat(one(inc), one(nText{"["}), one(nPrint{"z"}), one(nLoopIdx{}), one(nText{","}), prints(",", abcd...), one(nText{"]"}))
-		main = &tmpl{body: cat(one(macroM), defs, one(nFor{"z", []string{"1", "2"}, inner}), after)}
+		placed = one(node(nFor{"z", []string{"1", "2"}, inner}))
 	case pBlock:
-		main = &tmpl{body: cat(one(macroM), defs, one(nBlock{"kk", cat(one(inc), local)}), after)}
+		placed = one(node(nBlock{"kk", cat(one(inc), local)}))
 	case pMacro:
 		params := []string{"a", "b", "nm", "pfx", "sfx"}
-		mm := nMacroDef{"mm", params, cat(one(inc), local)}
-		main = &tmpl{body: cat(one(macroM), one(mm), defs, one(nMacroCall{"mm", params}), after)}
+		macros = append(macros, nMacroDef{"mm", params, cat(one(inc), local)})
+		placed = one(node(nMacroCall{"mm", params}))
 	case pChildBlock:
-		main = &tmpl{extends: "base", body: one(nBlock{"kk", cat(one(inc), local)})}
-		w.tmpls["base"] = &tmpl{body: cat(one(nText{"B<"}), one(nBlock{"kk", nil}), one(nText{">"}), prints(",", "a", "b", "c", "d", "q"))}
+		// the include stands in a block override of a template that extends; see below
 	default:
 		route := nInclude{name: nameExpr{form: 0, target: "mid"}}
 		switch c.place {
@@ -236,11 +277,45 @@ func build(c cas) *program {
 		case pNest4:
 			route.withOn, route.sandboxed, route.with = true, true, []withEntry{{key: "b", lit: "Rb"}}
 		}
-		main = &tmpl{body: cat(one(macroM), defs, one(route), after)}
+		placed = one(node(route))
 		w.tmpls["mid"] = &tmpl{body: cat(one(nText{"M["}), one(inc), one(nText{"|"}), prints(",", "a", "b", "c", "d", "q"), one(nText{"]"}))}
 	}
-	w.tmpls["main"] = main
-	return &program{w: w, ctx: ctx}
+	padded := []string{"main", "mid"}
+	switch {
+	case c.depth == 0 && c.place == pChildBlock:
+		w.tmpls["main"] = &tmpl{extends: "base", body: one(nBlock{"kk", cat(one(inc), local)})}
+		w.tmpls["base"] = &tmpl{body: cat(one(nText{"B<"}), one(nBlock{"kk", nil}), one(nText{">"}), prints(",", "a", "b", "c", "d", "q"))}
+	case c.depth == 0:
+		w.tmpls["main"] = &tmpl{body: cat(macros, defs, placed, after)}
+	default:
+		// The includer is part of an extends chain: main [extends pg] extends lay. Every extending template
+		// overrides block t (so the layout always renders with block definitions from above); block k, which
+		// the layout renders after the include (in `after`), is overridden as kOver says, with parent().
+		var kkOverride []node
+		if c.holder == 1 {
+			placed = one(node(nBlock{"kk", nil}))
+			kkOverride = one(node(nBlock{"kk", cat(one(inc), local)}))
+		}
+		w.tmpls["lay"] = &tmpl{body: cat(macros, defs, one(nBlock{"t", one(nText{"t0"})}), one(nText{"<"}), placed, one(nText{">"}), after)}
+		next := "lay"
+		for lvl := 1; lvl <= c.depth; lvl++ {
+			n := fmt.Sprint(lvl)
+			t := &tmpl{extends: next, body: one(node(nBlock{"t", one(nText{"T" + n})}))}
+			if lvl == 1 {
+				t.body = append(t.body, kkOverride...)
+			}
+			if c.kOver&(1<<(lvl-1)) != 0 {
+				t.body = append(t.body, nBlock{"k", []node{nText{"P" + n + "["}, nParent{}, nText{"]"}}})
+			}
+			next = "pg"
+			if lvl == c.depth {
+				next = "main"
+			}
+			w.tmpls[next] = t
+		}
+		padded = []string{"main", "pg", "lay", "mid"}
+	}
+	return &program{w: w, ctx: ctx, padded: padded}
 }
 
 // ---- the real engine
@@ -291,7 +366,7 @@ func runTwig(p *program, padded bool) (res result, sources map[string]string) {
 	sort.Strings(names)
 	for _, n := range names {
 		src := printTmpl(p.w.tmpls[n])
-		if padded && (n == "main" || n == "mid") {
+		if padded && contains(p.padded, n) {
 			if p.w.tmpls[n].extends != "" {
 				// extends stays the first tag; the comment follows it
 				src = "{% extends " + q(p.w.tmpls[n].extends) + " %}" + pad + printNodes(p.w.tmpls[n].body)
@@ -315,6 +390,15 @@ func runTwig(p *program, padded bool) (res result, sources map[string]string) {
 		return result{err: err.Error()}, sources
 	}
 	return result{out: out}, sources
+}
+
+func contains(ss []string, s string) bool {
+	for _, x := range ss {
+		if x == s {
+			return true
+		}
+	}
+	return false
 }
 
 func model(p *program, quirks int) result {
@@ -341,19 +425,18 @@ func same(got, want result) bool {
 
 // applicable returns the quirk switches whose predicate (over the case description) holds.
 func applicable(c cas) (quirks int, id string) {
-	w, o, i, s := c.opts&oW != 0, c.opts&oO != 0, c.opts&oI != 0, c.opts&oS != 0
-	derived := c.place == pNest0 || c.place == pNest1 // the include under test runs in a scope that inherits
-	if s && !o && derived {
-		quirks |= quirkSandboxedLocal
-		id = "KF-C11-1"
-	}
-	if c.target == tExtends && !o && !s {
-		quirks |= quirkExtendsLocal
-		id = "KF-C11-2"
-	}
-	if c.name == 4 && !i && (w || (!o && !s)) {
-		quirks |= quirkNameLiteral
-		id = "KF-C11-3" // decides the outcome alone: the include fails
+	o, s := c.opts&oO != 0, c.opts&oS != 0
+	// KF-C11-1, -2, -3 (see NOTES.md) were repaired in the repository (40cecb0, 12e2051) and are no longer
+	// tolerated; their switches stay in model.go as a record of what they did.
+	//
+	// KF-C11-4: the includer's layout is extended by templates that override block k, the include (and, for
+	// the nested placements, the include that leads to it) has neither `only` nor `sandboxed`, and the
+	// included template renders a block named k.
+	rendersK := (c.target == tPlain && c.extra >= 3) || (c.target == tExtends && c.xblk >= 1)
+	isolated := c.place == pNest2 || c.place == pNest3 || c.place == pNest4 || c.place == pMacro
+	if c.depth != 0 && c.kOver != 0 && !o && !s && rendersK && !isolated {
+		quirks |= quirkBlocksInherited
+		id = "KF-C11-4"
 	}
 	return
 }
@@ -364,7 +447,7 @@ func runCase(c cas) *vlib.Outcome {
 	got, sources := runTwig(p, c.pad)
 	exists := c.target == tPlain || c.target == tExtends
 	o := &vlib.Outcome{
-		Nontrivial: !exists || c.incMask != 0 || c.setMask != 0 || c.extra != 0 || c.opts&oW != 0,
+		Nontrivial: !exists || c.incMask != 0 || c.setMask != 0 || c.extra != 0 || c.opts&oW != 0 || c.xblk != 0,
 		Counters:   map[string]int64{"renders": 1},
 	}
 	kind := "output"
@@ -372,11 +455,22 @@ func runCase(c cas) *vlib.Outcome {
 		kind = "error"
 	}
 	o.Class = targetLabel[c.target] + "/" + optString(c.opts) + "/" + kind
+	if c.depth != 0 {
+		o.Class = "chain/" + o.Class
+		o.Counters["includer_in_extends_chain"] = 1
+		if exists && (c.xblk >= 2 || c.extra >= 3) {
+			o.Counters["includer_in_extends_chain_same_named_block"] = 1
+		}
+	}
 	if same(got, want) {
 		return o
 	}
-	o.Violation = fmt.Sprintf("include %s in placement %s, target %s: got %s, want %s\n  main: %s", printInclude(p.w.tmpls2include(c)), placeLabel[c.place], targetLabel[c.target], got, want, sources["main"])
-	for _, n := range []string{"mid", "base", targetName[c.target], "ibase"} {
+	where := placeLabel[c.place]
+	if c.depth != 0 {
+		where += " (" + c.chainLabel() + ")"
+	}
+	o.Violation = fmt.Sprintf("include %s in placement %s, target %s: got %s, want %s\n  main: %s", printInclude(p.w.tmpls2include(c)), where, targetLabel[c.target], got, want, sources["main"])
+	for _, n := range []string{"pg", "lay", "mid", "base", targetName[c.target], "ibase"} {
 		if s, ok := sources[n]; ok && (n != "ibase" || c.target == tExtends) {
 			o.Violation += fmt.Sprintf("\n  %s: %s", n, s)
 		}
@@ -397,8 +491,13 @@ func same2(got, pred result) bool { return same(got, pred) }
 // tmpls2include re-creates the include under test for messages.
 func (w *world) tmpls2include(c cas) nInclude {
 	holder := "main"
-	if c.place >= pNest0 {
+	switch {
+	case c.place >= pNest0:
 		holder = "mid"
+	case c.depth != 0 && c.holder == 0:
+		holder = "lay"
+	case c.depth == 2:
+		holder = "pg"
 	}
 	var find func(ns []node) (nInclude, bool)
 	find = func(ns []node) (nInclude, bool) {
@@ -439,6 +538,26 @@ type bounds struct {
 	setMasks []int
 	extras   []int
 	pads     []bool
+	xblks    []int // blocks of an included template that extends (crossed with extra 0, context-defined variables)
+	// the includer inside an extends chain
+	chNames    []int
+	chSetMasks []int
+	chExtras   []int
+}
+
+// shape: how the includer takes part in an extends chain (see cas.depth / holder / kOver)
+type shape struct{ depth, holder, kOver int }
+
+func shapes() []shape {
+	var r []shape
+	for depth := 1; depth <= 2; depth++ {
+		for holder := 0; holder <= 1; holder++ {
+			for kOver := 0; kOver < 1<<depth; kOver++ {
+				r = append(r, shape{depth, holder, kOver})
+			}
+		}
+	}
+	return r
 }
 
 func enumerate(t *vlib.T) {
@@ -449,6 +568,11 @@ func enumerate(t *vlib.T) {
 		setMasks: []int{0, 1, 2, 3, 4, 5, 6, 7, 8, 9, 10, 11, 12, 13, 14, 15},
 		extras:   []int{0, 4},
 		pads:     []bool{false},
+		xblks:    []int{0, 3},
+
+		chNames:    []int{0, 2},
+		chSetMasks: []int{0, 5, 10, 15},
+		chExtras:   []int{0, 4},
 	}
 	failNames := []int{0, 2, 4}
 	if t.Thorough() {
@@ -456,7 +580,11 @@ func enumerate(t *vlib.T) {
 		b.defSets = []bool{false, true}
 		b.extras = []int{0, 1, 2, 3, 4}
 		b.pads = []bool{false, true}
+		b.xblks = []int{0, 1, 2, 3}
 		failNames = b.names
+		b.chNames = []int{0, 2, 5}
+		b.chSetMasks = []int{0, 1, 2, 4, 8, 5, 10, 15}
+		b.chExtras = b.extras
 	}
 	emit := func(c cas) {
 		t.Case(c.key(), func() *vlib.Outcome { return runCase(c) })
@@ -500,6 +628,77 @@ func enumerate(t *vlib.T) {
 			}
 		}
 	}
+	// 1b. the includer is part of an extends chain (its context carries block definitions of the templates
+	// that extend it): the include stands in the layout (all placements) or in the block override of the
+	// template next to it; the layout renders its block k - overridden or not, with parent() - after the include
+	var chOws []ow
+	for _, x := range ows {
+		if (x.withMask == 0 || x.withMask == 3) && (x.wstyle == 0 || x.wstyle == 2) {
+			chOws = append(chOws, x)
+		}
+	}
+	type tgt struct{ target, extra, xblk int }
+	var tgts []tgt
+	for _, extra := range b.chExtras {
+		tgts = append(tgts, tgt{tPlain, extra, 0})
+	}
+	for _, extra := range b.chExtras {
+		if extra >= 3 {
+			continue // as in 2.
+		}
+		for xb := 0; xb <= 3; xb++ {
+			if extra != 0 && xb != 0 && xb != 3 {
+				continue
+			}
+			tgts = append(tgts, tgt{tExtends, extra, xb})
+		}
+	}
+	chainPlaces := func(sh shape) []int {
+		if sh.holder == 1 {
+			return []int{pChildBlock}
+		}
+		return []int{pTop, pIf, pFor, pBlock, pMacro, pNest0, pNest1, pNest2, pNest3, pNest4}
+	}
+	for _, sh := range shapes() {
+		for _, place := range chainPlaces(sh) {
+			for target := tMissing; target < nTargets; target++ {
+				for _, x := range chOws {
+					for _, nm := range failNames {
+						for _, pd := range []bool{false, true} {
+							emit(cas{target: target, opts: x.opts, withMask: x.withMask, wstyle: x.wstyle, name: nm, place: place, incMask: 3, pad: pd, depth: sh.depth, holder: sh.holder, kOver: sh.kOver})
+						}
+					}
+				}
+			}
+		}
+	}
+	for _, pd := range []bool{false, true} {
+		incMasks, setMasks := []int{0, 1, 2, 3}, b.chSetMasks
+		if pd { // the tokenizer twin: a slice
+			incMasks, setMasks = []int{0, 3}, []int{0, 5, 10, 15}
+			if !t.Thorough() {
+				incMasks, setMasks = []int{3}, []int{0, 15}
+			}
+		}
+		for _, sh := range shapes() {
+			for _, place := range chainPlaces(sh) {
+				for _, tg := range tgts {
+					for _, nm := range b.chNames {
+						for _, x := range chOws {
+							for _, im := range incMasks {
+								for _, sm := range setMasks {
+									if t.Stopped() {
+										return
+									}
+									emit(cas{target: tg.target, opts: x.opts, withMask: x.withMask, wstyle: x.wstyle, name: nm, place: place, incMask: im, setMask: sm, extra: tg.extra, xblk: tg.xblk, pad: pd, depth: sh.depth, holder: sh.holder, kOver: sh.kOver})
+								}
+							}
+						}
+					}
+				}
+			}
+		}
+	}
 	// 2. targets that exist: the full variable grid
 	for _, pd := range b.pads {
 		for _, target := range []int{tPlain, tExtends} {
@@ -523,6 +722,14 @@ func enumerate(t *vlib.T) {
 											return
 										}
 										emit(cas{target: target, opts: x.opts, withMask: x.withMask, wstyle: x.wstyle, name: nm, place: place, incMask: incMask, defSet: ds, setMask: sm, extra: extra, pad: pd})
+										if target == tExtends && extra == 0 && !ds && !pd {
+											// the included template and its parent define a block with the name of the includer's block k
+											for _, xb := range b.xblks {
+												if xb != 0 {
+													emit(cas{target: target, opts: x.opts, withMask: x.withMask, wstyle: x.wstyle, name: nm, place: place, incMask: incMask, setMask: sm, xblk: xb})
+												}
+											}
+										}
 									}
 								}
 							}
@@ -557,9 +764,10 @@ func main() {
 		ID:    "C11",
 		Level: "exploration",
 		Rule: "every include program of the grid {with, only, ignore missing, sandboxed}^4 x with-map x name form x target x placement x includer variables x " +
-			"variables set by the included template x loop/block/macro of the included template x tokenizer is rendered on a fresh engine and compared with the reference model; " +
+			"variables set by the included template x loop/block/macro of the included template x tokenizer x position of the includer in an extends chain (none / layout / block override; 1 or 2 extending templates; " +
+			"which of them override, with parent(), the block the includer renders after the include) x same-named blocks of an included template that extends is rendered on a fresh engine and compared with the reference model; " +
 			"a case is non-trivial when information could flow in either direction (the includer defines a variable, `with` passes one, the included template sets one, runs a loop " +
-			"or defines a block/macro) or when the target cannot be rendered (missing / failing), which exercises the missing-template handling",
+			"or defines a block/macro, also one with the name of a block of the includer's extends chain) or when the target cannot be rendered (missing / failing), which exercises the missing-template handling",
 		Assumptions: []string{
 			"the reference model (checks/c11/model.go) is a correct transcription of the property statement",
 			"visibility of outer variables and macros inside macros, option orders other than `ignore missing` `with` `only` `sandboxed`, `with` followed by a non-literal, and the value of loop variables after endfor are not fixed by the statement and are not generated",
